@@ -6,6 +6,11 @@ namespace BtcVerif.Oracle
 abbrev Handler := String → List String → Option String
 
 def dispatch (handlers : List Handler) (op : String) (args : List String) : String :=
+  -- `net.with <network> <op> <args…>`: an operation whose answer does not depend on the selected network,
+  -- evaluated by the harness under another `constants.CurrentNetwork`: the model's answer is that of `<op>`
+  let (op, args) := match op, args with
+    | "net.with", _ :: op' :: rest => (op', rest)
+    | _, _ => (op, args)
   match handlers.findSome? (fun h => h op args) with
   | some r => r
   | none => "bad-op"
